@@ -74,4 +74,69 @@ def stringOffset (e : Endian) (f : Format) (b : UnitBases) (debugStrOffsets : By
 def address (e : Endian) (addressSize : Nat) (b : UnitBases) (debugAddr : Bytes) (index : Nat) : Out Nat :=
   Indexed.getAddress e addressSize debugAddr b.addr index
 
+/-! ## skeleton → split unit hand-over, list-offset lookups -/
+
+/-- the part of a `Unit` the hand-over touches -/
+structure UnitState where
+  version : Nat
+  format : Format
+  bases : UnitBases
+  lowPc : Nat
+  deriving DecidableEq, Repr
+
+/-- `Unit::new` for the fields modelled here: bases from the encoding, file type and root
+attributes; `low_pc` from the root DIE's `DW_AT_low_pc` (0 when absent) -/
+def newUnit (version : Nat) (f : Format) (ft : FileType) (rootAttrs : List (Nat × Nat)) (lowPc : Option Nat) :
+    UnitState :=
+  { version, format := f, bases := unitBases version f ft rootAttrs, lowPc := lowPc.getD 0 }
+
+/-- `Unit::copy_relocated_attributes(&mut self, other)`: `low_pc` and `addr_base` always; the
+ranges base only before DWARF 5 (there it is `DW_AT_GNU_ranges_base`, an offset into the parent's
+`.debug_ranges`; in DWARF 5 the split unit's lists live in its own `.debug_rnglists.dwo`) -/
+def copyRelocated (self other : UnitState) : UnitState :=
+  { self with
+    lowPc := other.lowPc
+    bases :=
+      { self.bases with
+        addr := other.bases.addr
+        rnglists := if self.version < 5 then other.bases.rnglists else self.bases.rnglists } }
+
+/-- the sections of a `Dwarf` that `make_dwo` / `DwarfPackage::sections` rewire -/
+structure Sections where
+  fileType : FileType
+  debugAddr : Bytes
+  debugRanges : Bytes
+  debugRnglists : Bytes
+  debugLoclists : Bytes
+  deriving DecidableEq, Repr
+
+/-- `Dwarf::make_dwo(parent)`: the file becomes a `.dwo`; `.debug_addr` and `.debug_ranges` are the
+parent's, `.debug_rnglists` / `.debug_loclists` stay the file's own.  (`DwarfPackage::sections`
+assembles the same shape from the unit's contributions.) -/
+def makeDwo (self parent : Sections) : Sections :=
+  { self with fileType := .dwo, debugAddr := parent.debugAddr, debugRanges := parent.debugRanges }
+
+/-- `RangeLists::get_offset` / `LocationLists::get_offset`: entry `index` of the offsets array at
+`base`, plus `base` (the entries are relative to the base); both the product and the sum are
+checked -/
+def getListOffset (e : Endian) (f : Format) (sec : Bytes) (base index : Nat) : Out Nat := do
+  let r ← Names.skipTo sec base
+  if index * f.wordSize ≥ 2 ^ 64 then .err .rUnsupportedOffset else do
+  let r ← Names.skipTo r (index * f.wordSize)
+  let (offset, _) ← Ints.readWord e 64 f r
+  if base + offset ≥ 2 ^ 64 then .err .rUnsupportedOffset else pure (base + offset)
+
+/-- `Dwarf::ranges_offset(unit, index)` -/
+def rangesOffset (e : Endian) (u : UnitState) (s : Sections) (index : Nat) : Out Nat :=
+  getListOffset e u.format s.debugRnglists u.bases.rnglists index
+
+/-- `Dwarf::locations_offset(unit, index)` -/
+def locationsOffset (e : Endian) (u : UnitState) (s : Sections) (index : Nat) : Out Nat :=
+  getListOffset e u.format s.debugLoclists u.bases.loclists index
+
+/-- `Dwarf::ranges_offset_from_raw`: `DW_AT_GNU_ranges_base` is added (wrapping) only in a
+pre-DWARF 5 `.dwo` -/
+def rangesOffsetFromRaw (u : UnitState) (s : Sections) (raw : Nat) : Nat :=
+  if s.fileType = .dwo ∧ u.version < 5 then (raw + u.bases.rnglists) % 2 ^ 64 else raw
+
 end Gimli.Bases
